@@ -12,37 +12,53 @@ const (
 
 // ProcedureCode values (9.4.7 "Elementary Procedures").
 const (
-	ProcDownlinkNASTransport      = 4
-	ProcInitialContextSetup       = 14
-	ProcInitialUEMessage          = 15
-	ProcNGSetup                   = 21
-	ProcPDUSessionResourceRelease = 28
-	ProcPDUSessionResourceSetup   = 29
-	ProcUEContextRelease          = 41
-	ProcUEContextReleaseRequest   = 42
-	ProcUplinkNASTransport        = 46
+	ProcDownlinkNASTransport       = 4
+	ProcHandoverNotification       = 11
+	ProcHandoverPreparation        = 12
+	ProcHandoverResourceAllocation = 13
+	ProcPathSwitchRequest          = 25
+	ProcInitialContextSetup        = 14
+	ProcInitialUEMessage           = 15
+	ProcNGSetup                    = 21
+	ProcPDUSessionResourceRelease  = 28
+	ProcPDUSessionResourceSetup    = 29
+	ProcUEContextRelease           = 41
+	ProcUEContextReleaseRequest    = 42
+	ProcUplinkNASTransport         = 46
 )
 
 // ProtocolIE-ID values (9.4.7 "IEs").
 const (
-	IEAllowedNSSAI                                = 0
-	IEAMFUENGAPID                                 = 10
-	IECriticalityDiagnostics                      = 19
-	IEDefaultPagingDRX                            = 21
-	IEFiveGSTMSI                                  = 26
-	IEGlobalRANNodeID                             = 27
-	IENASPDU                                      = 38
-	IEPDUSessionResourceFailedToSetupListCxtRes   = 55
-	IEPDUSessionResourceListCxtRelCpl             = 60
-	IEPDUSessionResourceReleasedListRelRes        = 70
-	IEPDUSessionResourceSetupListCxtRes           = 72
-	IEPDUSessionResourceSetupListSURes            = 75
-	IERANNodeName                                 = 82
-	IERANUENGAPID                                 = 85
-	IERRCEstablishmentCause                       = 90
-	IESupportedTAList                             = 102
-	IEUEContextRequest                            = 112
-	IEUserLocationInformation                     = 121
+	IEAllowedNSSAI                              = 0
+	IEAMFUENGAPID                               = 10
+	IECause                                     = 15
+	IEHandoverType                              = 29
+	IEPDUSessionResourceAdmittedList            = 53
+	IEPDUSessionResourceFailedToSetupListHOAck  = 56
+	IEPDUSessionResourceListHORqd               = 61
+	IEPDUSessionResourceToBeSwitchedDLList      = 76
+	IESourceAMFUENGAPID                         = 100
+	IESourceToTargetTransparentContainer        = 101
+	IETargetID                                  = 105
+	IETargetToSourceTransparentContainer        = 106
+	IEUESecurityCapabilities                    = 119
+	IEPDUSessionResourceListCxtRelReq           = 133
+	IECriticalityDiagnostics                    = 19
+	IEDefaultPagingDRX                          = 21
+	IEFiveGSTMSI                                = 26
+	IEGlobalRANNodeID                           = 27
+	IENASPDU                                    = 38
+	IEPDUSessionResourceFailedToSetupListCxtRes = 55
+	IEPDUSessionResourceListCxtRelCpl           = 60
+	IEPDUSessionResourceReleasedListRelRes      = 70
+	IEPDUSessionResourceSetupListCxtRes         = 72
+	IEPDUSessionResourceSetupListSURes          = 75
+	IERANNodeName                               = 82
+	IERANUENGAPID                               = 85
+	IERRCEstablishmentCause                     = 90
+	IESupportedTAList                           = 102
+	IEUEContextRequest                          = 112
+	IEUserLocationInformation                   = 121
 )
 
 // The IE tables of clause 9.2 for the messages the emulator sends, as (id, criticality) pairs in
